@@ -36,6 +36,16 @@ impl CssData {
     where
         Init: FnOnce(&mut Self) -> Result<ScopeRef, Error>,
     {
+        #[cfg(feature = "verif_hooks")]
+        crate::verif::emit(
+            "module",
+            path,
+            if self.modules.contains_key(path) {
+                "cached"
+            } else {
+                "init"
+            },
+        );
         if let Some(loaded) = self.modules.get(path) {
             return Ok(loaded.clone());
         }
